@@ -180,6 +180,9 @@ def run_dependencies(r):
         ran.append(name)
         runner(r, pre)
     check_api_resolution(r, pre + "API")
+    check_state(r, pre + "STATE", reach)
+    check_library_configuration(r, pre)
+    check_class_hooks(r, pre, reach | entries)
     if any(q.startswith("pyrepseq.nn.") and q.rsplit(".", 1)[1] in ("_to_triplets", "kdtree", "_kdtree_leven") for q in reach):
         check_start_method(r, pre + "START-METHOD")
         ran.append("start-method")
@@ -351,3 +354,116 @@ def check_start_method(r, rule):
                expected="the platform default start method (fork)", found=txt, key=f"start method {txt}", lint=True)
     if not hits:
         rep.ob(rule, "pyrepseq.nn._to_triplets", True, "no module of the package selects a process start method other than fork", "pyrepseq/nn.py:1", key="start method")
+
+
+# --------------------------------------------------------------------------- state, configuration, class hooks
+def check_state(r, rule, reach):
+    """A value property speaks about a function of its arguments.  A function on its path that writes to module-level or class-level
+    state (other than the audited kdtree parameter block, which the kd-pool group checks) makes the result depend on the calls made
+    before: the statement is false for some call sequence.  Lint - wrong whatever surrounds it."""
+    import ast as _ast
+    from .eff import ALL_MUTATORS, effects_for
+    from .rules import where_of
+    from .terms import show, strip
+    from .props.C20 import _is_class_level, _touches_class_attr
+    rep = r.rep
+    E = effects_for(r)
+    hits = 0
+    for q in sorted(reach):
+        if q not in E.direct:
+            continue
+        for root, e, w in E.direct[q]:
+            if root[0] != "glob" or root[1] == "pyrepseq.nn._cal_params":
+                continue
+            if not root[1].startswith(PKG + "."):
+                continue          # (third-party module objects: numpy's random stream etc. are the business of the RNG rules)
+            hits += 1
+            rep.ob(rule, q, False, "functions on this property's path keep no module-level state between calls", where_of(r.P, r.P.functions[q], e.node),
+                   expected="no write to module-level objects", found=w, key=f"module state {root[1]}", lint=True)
+    for cq, ci in sorted(r.P.classes.items()):
+        for an, val in ci.attrs.items():
+            mutable = isinstance(val, (_ast.List, _ast.Dict, _ast.Set, _ast.ListComp, _ast.DictComp, _ast.SetComp)) or \
+                (isinstance(val, _ast.Call) and not (isinstance(val.func, _ast.Name) and val.func.id in ("range", "frozenset", "tuple", "property", "staticmethod", "classmethod", "str", "int", "float")))
+            if not mutable:
+                continue
+            for q in sorted(reach):
+                if q not in E.direct:
+                    continue
+                sq = r.A.summary(q)
+                for e in sq.events:
+                    objs = []
+                    if e.kind in ("setitem", "augitem", "delitem", "setattr", "augattr"):
+                        objs.append(e["obj"])
+                    elif e.kind == "call" and head(strip(strip(e["term"])[1])) == "attr" and strip(strip(e["term"])[1])[2] in ALL_MUTATORS:
+                        objs.append(strip(strip(e["term"])[1])[1])
+                    for o in objs:
+                        direct_bind = e.kind == "setattr" and strip(e["obj"]) == ("param", "self") and e["name"] == an
+                        if _touches_class_attr(r.P, o, an) and not direct_bind and _is_class_level(r, q, an, e):
+                            hits += 1
+                            rep.ob(rule, q, False, f"the class-level container '{an}' of {cq.rsplit('.', 1)[1]} (shared by all instances and calls) is not modified", where_of(r.P, r.P.functions[q], e.node),
+                                   expected="read-only", found=show(o, 60), key=f"class state {cq}.{an}", lint=True)
+    for q in sorted(reach):
+        fn = r.P.functions[q]
+        for dec in getattr(fn.node, "decorator_list", []):
+            txt = _ast.unparse(dec)
+            if any(k in txt for k in ("cache", "memo")):
+                params_ = [p_[0] for p_ in r.A.summary(q).params]
+                pure_ = ("lru_cache" in txt or txt.endswith("cache") or "functools.cache" in txt) and "self" not in params_ and "cls" not in params_ \
+                    and not E.mut.get(q) and not any(root_[0] == "glob" for root_, _, _ in E.direct.get(q, ()))
+                if not pure_:
+                    hits += 1
+                    rep.ob(rule, q, False, "no result cache survives between calls", where_of(r.P, fn, fn.node), expected="no caching decorator (or a cache keyed on all arguments of a pure function)",
+                           found="@" + txt, key="cache decorator", lint=True)
+    if not hits:
+        rep.ob(rule, r.rep.prop, True, "no function on this property's path writes to module-level or class-level state", "", key="no state")
+
+
+_CONFIG_CALLS = {"numpy.seterr", "numpy.seterrcall", "numpy.errstate", "pandas.set_option", "pandas.options", "pandas.reset_option", "numpy.random.seed", "random.seed",
+                 "warnings.simplefilter_error", "sys.setrecursionlimit", "decimal.getcontext"}
+
+
+def check_library_configuration(r, pre):
+    """The trusted library models describe numpy / pandas in their default configuration.  A module of the package that changes process-wide
+    library behaviour when it is imported (np.seterr, pd.set_option, a seeded global RNG ...) takes that ground away: not decided."""
+    import ast as _ast
+    for mn, mod in r.P.modules.items():
+        for st in mod.tree.body:          # import time only: statements at module level
+            for n in _ast.walk(st) if not isinstance(st, (_ast.FunctionDef, _ast.AsyncFunctionDef, _ast.ClassDef)) else ():
+                if isinstance(n, _ast.Call):
+                    try:
+                        dotted = _ast.unparse(n.func)
+                    except Exception:
+                        continue
+                    head_, _, rest = dotted.partition(".")
+                    res = r.P.resolve_global(mn, head_)
+                    full = (res + ("." + rest if rest else "")) if res else dotted
+                    if full in _CONFIG_CALLS or full.startswith("pandas.options.") or full.startswith("pandas.set_option"):
+                        r.rep.require(False, f"{mod.relpath}:{n.lineno}: {_ast.unparse(n)[:80]} changes process-wide library behaviour at import; the library models this analysis "
+                                             f"trusts describe the default configuration; cannot decide [{pre}LIBCONFIG]")
+                elif isinstance(n, _ast.Assign) and any(_ast.unparse(t).startswith(("pd.options.", "pandas.options.", "np.random.", "numpy.random.")) for t in n.targets):
+                    r.rep.require(False, f"{mod.relpath}:{n.lineno}: {_ast.unparse(n)[:80]} changes process-wide library behaviour at import; cannot decide [{pre}LIBCONFIG]")
+
+
+_HOOKS = ("__init_subclass__", "__getattr__", "__getattribute__", "__class_getitem__", "__set_name__", "__new__")
+
+
+def check_class_hooks(r, pre, functions):
+    """Methods are read from their bodies.  A class (or a base class inside the package) that intercepts definition or attribute access -
+    __init_subclass__, __getattribute__, a metaclass, a class decorator - can replace what a method does: not decided."""
+    import ast as _ast
+    seen = set()
+    for q in sorted(functions):
+        f = r.P.functions.get(q)
+        if f is None or not f.cls:
+            continue
+        for c in r.P.mro(f.cls):
+            if c in seen or c not in r.P.classes:
+                continue
+            seen.add(c)
+            ci = r.P.classes[c]
+            hooks = [h for h in _HOOKS if h in ci.methods]
+            meta = [k for k in getattr(ci.node, "keywords", []) if k.arg == "metaclass"]
+            decs = [d for d in getattr(ci.node, "decorator_list", []) if not _ast.unparse(d).split("(")[0].split(".")[-1] in ("dataclass", "total_ordering", "final", "runtime_checkable")]
+            if hooks or meta or decs:
+                what = ", ".join(hooks + [f"metaclass={_ast.unparse(k.value)}" for k in meta] + ["@" + _ast.unparse(d) for d in decs])
+                r.rep.require(False, f"{c}: the class intercepts method definition / attribute access ({what}); what its methods do is not what their bodies say; cannot decide [{pre}CLASSHOOK]")
